@@ -10,6 +10,7 @@
 #include <fcntl.h>
 #include <signal.h>
 #include <time.h>
+#include <sys/time.h>
 #include <sys/mman.h>
 #include <sys/wait.h>
 #include <sys/stat.h>
@@ -735,6 +736,33 @@ static void run_one(uint64_t idx)
     S->cur_case = -1;
 }
 
+/* CPU-time hang detector: a worker that burns 120 s of its own CPU time without starting a new
+ * operation is stuck inside one call (e.g. a loop that can no longer terminate because a link or a
+ * counter is corrupt).  This is a logical measure (the worker's own virtual time, not the wall
+ * clock); the supervisor turns exit status 88 into a violation keyed by the entry point. */
+static volatile uint64_t hang_last_nops;
+static volatile int hang_ticks;
+static void hang_tick(int sig)
+{
+    (void)sig;
+    if (S == NULL || S->cur_case < 0) { hang_ticks = 0; return; }
+    if (S->nops != hang_last_nops) { hang_last_nops = S->nops; hang_ticks = 0; return; }
+    if (++hang_ticks >= 24) _exit(88);
+}
+static void hang_detector_start(void)
+{
+    struct sigaction sa;
+    struct itimerval it;
+    if (getenv("VERIF_NO_HANG_DETECTOR") != NULL || strcmp(vrt_config, "rel-plain") == 0) return;
+    memset(&sa, 0, sizeof(sa));
+    sa.sa_handler = hang_tick;
+    sa.sa_flags = SA_RESTART;
+    sigaction(SIGVTALRM, &sa, NULL);
+    it.it_interval.tv_sec = 5; it.it_interval.tv_usec = 0;
+    it.it_value = it.it_interval;
+    setitimer(ITIMER_VIRTUAL, &it, NULL);
+}
+
 static void worker_main(int w, int64_t only_case)
 {
     char path[512];
@@ -747,6 +775,7 @@ static void worker_main(int w, int64_t only_case)
         fd = open(path, O_WRONLY | O_CREAT | O_TRUNC, 0644);
         if (fd >= 0) { dup2(fd, 2); close(fd); }
     }
+    hang_detector_start();
     if (H->worker_init) H->worker_init();
     if (only_case >= 0) {
         run_one((uint64_t)only_case);
@@ -846,6 +875,8 @@ static void classify_death(int status, const char *errtxt, char *kind, size_t n)
         char s[64];
         slugify(s, sizeof(s), p + 3, 40);
         snprintf(kind, n, "memcheck.%s", s);
+    } else if (WIFEXITED(status) && WEXITSTATUS(status) == 88) {
+        snprintf(kind, n, "hang.cpu-120s-in-one-call");
     } else if (WIFSIGNALED(status)) {
         int sg = WTERMSIG(status);
         snprintf(kind, n, "signal.%s", sg == SIGSEGV ? "SIGSEGV" : sg == SIGFPE ? "SIGFPE" :
